@@ -272,6 +272,17 @@ fn main() {
         fr::change_type_of_pixel_components_typed(&src, &mut dst).unwrap();
         println!("F32->I32: -0.5 -> {:?}, -0.25 -> {:?}, +0.5 -> {:?}", dst.pixels()[0].0, dst.pixels()[1].0, dst.pixels()[2].0);
     }
+    if want("depth-i32-max") {
+        // widening to I32: the maximum of the source range does not reach i32::MAX
+        let src = TypedImage::<U8>::from_pixels(2, 1, vec![U8::new(0), U8::new(255)]).unwrap();
+        let mut dst = TypedImage::<I32>::new(2, 1);
+        fr::change_type_of_pixel_components_typed(&src, &mut dst).unwrap();
+        println!("U8->I32: 0 -> {:?}, 255 -> {:?} (i32::MAX = {})", dst.pixels()[0].0, dst.pixels()[1].0, i32::MAX);
+        let src = TypedImage::<fr::pixels::U16>::from_pixels(2, 1, vec![fr::pixels::U16::new(0), fr::pixels::U16::new(65535)]).unwrap();
+        let mut dst = TypedImage::<I32>::new(2, 1);
+        fr::change_type_of_pixel_components_typed(&src, &mut dst).unwrap();
+        println!("U16->I32: 0 -> {:?}, 65535 -> {:?}", dst.pixels()[0].0, dst.pixels()[1].0);
+    }
     if want("split-zero-width") {
         let v = MyView { w: 0, h: 5, row: vec![] };
         guard("user view 0x5 .split_by_height(0,5,2) (default impl)", || {
